@@ -879,8 +879,13 @@ def interaction_block(ctx, pym):
     from pymoto.solvers import auto_determine_solver
     nint = 0
 
-    def dense_of(A):
-        return A.toarray() if sps.issparse(A) else np.asarray(A)
+    def gen_nd(cls, n, cplx):
+        """matrix of the class that is not accidentally diagonal: a re-used (auto-determined) solver object must stay
+        inside the class it was determined for (LinearSolver.update documents 'same structure')"""
+        while True:
+            A = lc.gen_matrix(rng, cls, n, cplx)
+            if cls == 'diag' or not lc.classify(A)['diag']:
+                return A
 
     def resid(Aref, t, x, bref):
         n = Aref.shape[0]
@@ -1059,7 +1064,7 @@ def interaction_block(ctx, pym):
             menu += cg_menu(sparse)
         for lab, ctor in menu:
             iscg = lab.startswith('CG')
-            A0 = lc.gen_matrix(rng, cls, n, cplx)
+            A0 = gen_nd(cls, n, cplx)
             M = A0.copy()                       # the dense master copy of the CURRENT values
             Aown = sps.csc_matrix(M) if sparse else M
             try:
@@ -1136,8 +1141,8 @@ def interaction_block(ctx, pym):
                     break
     # two solver objects sharing one matrix object, one solver object alternating between two matrices
     for cls, cplx in (('spd', False), ('hpd', True), ('general', False)):
-        A = lc.gen_matrix(rng, cls, 4, cplx)
-        B = lc.gen_matrix(rng, cls, 4, cplx)
+        A = gen_nd(cls, 4, cplx)
+        B = gen_nd(cls, 4, cplx)
         menu = [(lab, c) for lab, c in solver_menu(pym, cls, cplx, False)]
         objs = [(lab, auto_determine_solver(A) if c is None else c()) for lab, c in menu]
         b = lc.gen_rhs(rng, 4, 'vec', cplx)
